@@ -36,17 +36,19 @@ def run_impl(case, d):
     if g is None or "graph" not in res or not res.get("success"):
         return res
     try:
-        res["traversal"] = cp.dump_host_traversal(ta, res["rank"])
+        res["traversal"] = cp.dump_host_traversal(ta, res["rank"], g)
     except Exception as e:
         res["traversal_error"] = type(e).__name__ + ": " + str(e)[:200]
+    k = fw.time_scale(case)
+    T = int if k == 1 else (lambda x: fw.as_int(x * k))
     try:
         edges = list(g.critical_path_edges_set)
         df = g.get_critical_path_breakdown()
-        rows = cp.dump_breakdown(g)
+        rows = cp.dump_breakdown(g, k)
         paired = []
         for e, r in zip(edges, rows):
             a = g.get_event_attribution_for_edge(e)
-            paired.append({"u": int(e.begin), "v": int(e.end), "w": int(e.weight), "ty": TY[str(e.type.value)], "attr": -1 if a is None else int(a), "row": r})
+            paired.append({"u": int(e.begin), "v": int(e.end), "w": T(e.weight), "ty": TY[str(e.type.value)], "attr": -1 if a is None else int(a), "row": r})
         res["paired"] = paired
         res["n_rows"] = len(rows)
         res["n_edges"] = len(edges)
@@ -55,7 +57,7 @@ def run_impl(case, d):
             sm = g.summary()
         res["summary"] = {str(k): float(v) for k, v in sm.items()}
         nodes = {n[0]: n for n in res["graph"]["nodes"]}
-        res["path_weight"] = sum(int(g.edges[u, v]["object"].weight) for u, v in zip(g.critical_path_nodes, g.critical_path_nodes[1:]))
+        res["path_weight"] = sum(T(g.edges[u, v]["object"].weight) for u, v in zip(g.critical_path_nodes, g.critical_path_nodes[1:]))
     except Exception as e:
         import traceback
         res["bd_error"] = type(e).__name__ + ": " + str(e)[:200] + " @ " + traceback.format_exc()[-300:]
